@@ -33,6 +33,7 @@ type VerifyOpts struct {
 	ExtraPost  func(f *Frame, exit *State, results []SVal) []namedTerm
 	ExtraPre   func(f *Frame, st *State) []*Term
 	NoContract bool // ignore the function's own contract clauses except nopanic-relevant loops
+	OnlyKinds  []string // keep only obligations of these kinds (the others belong to another property)
 	Sweep      bool // safety sweep: standing preconditions (non-nil pointer receiver, non-nil function parameters)
 }
 
@@ -59,6 +60,17 @@ func (e *Engine) VerifyFunc(fn *ssa.Function, opts VerifyOpts) (res *FuncResult)
 			}
 		}
 		res.Obligs = ctx.obligs
+		if len(opts.OnlyKinds) > 0 {
+			var kept []*Oblig
+			for _, o := range ctx.obligs {
+				for _, k := range opts.OnlyKinds {
+					if o.Kind == k {
+						kept = append(kept, o)
+					}
+				}
+			}
+			res.Obligs = kept
+		}
 	}()
 	ct := e.contractFor(fn)
 	f := &Frame{ctx: ctx, fn: fn, tmap: TMap{}, vals: map[ssa.Value]Val{}, contract: ct, curKey: map[*ssa.Range]*Term{}, ghosts: map[string]SVal{}}
@@ -68,14 +80,18 @@ func (e *Engine) VerifyFunc(fn *ssa.Function, opts VerifyOpts) (res *FuncResult)
 	st.alloc = ctx.constant("alloc@entry", SInt)
 	ctx.assume(Gt(st.alloc, IntLit(0)))
 	// parameters
-	for _, p := range fn.Params {
+	for pi, p := range fn.Params {
 		t := f.subst(p.Type())
+		pname := p.Name()
+		if pname == "_" || pname == "" {
+			pname = fmt.Sprintf("_%d", pi)
+		}
 		if _, isSig := t.Underlying().(*types.Signature); isSig {
-			v := ctx.constant("param!"+p.Name(), SInt)
+			v := ctx.constant("param!"+pname, SInt)
 			f.vals[p] = v
 			continue
 		}
-		v := ctx.constant("param!"+p.Name(), f.sortOf(t))
+		v := ctx.constant("param!"+pname, f.sortOf(t))
 		f.vals[p] = v
 		f.assumeWf(st, v, t)
 	}
@@ -113,7 +129,7 @@ func (e *Engine) VerifyFunc(fn *ssa.Function, opts VerifyOpts) (res *FuncResult)
 					ctx.trusted["standing precondition: option slices (variadic functional options) contain no nil function"] = true
 				}
 			}
-			if tmpl := standingInvariant(e.sorts.typeName(pt)); tmpl != "" && p.Name() != "_" && p.Name() != "" {
+			if tmpl := standingInvariant(e.sorts.typeName(pt)); tmpl != "" && p.Name() != "_" && p.Name() != "" && !strings.HasPrefix(ctx.fnKey, "orderedmap.") {
 				src := strings.ReplaceAll(tmpl, "$p", p.Name())
 				ex, err := ParseSpecExpr(src)
 				if err != nil {
@@ -123,6 +139,7 @@ func (e *Engine) VerifyFunc(fn *ssa.Function, opts VerifyOpts) (res *FuncResult)
 				se.positive = true
 				se.site = "pre"
 				ctx.assume(se.evalBool(ex))
+				f.autoInv = append(f.autoInv, Clause{Label: "standing:" + p.Name(), Expr: ex, Text: src})
 				ctx.trusted["standing IR invariant assumed at entry: "+tmpl+" (established by NewSchema / the parsers / orderedmap.New)"] = true
 			}
 		}
@@ -394,6 +411,12 @@ func standingInvariant(typeName string) string {
 		return "$p != nil && wf($p.Objects)"
 	case typeName == "ast.Schemas" || typeName == "[]*ast.Schema":
 		return "forall j: int :: 0 <= j && j < len($p) ==> $p[j] != nil && wf($p[j].Objects)"
+	case typeName == "*jsonschema.generator":
+		return "$p != nil && $p.schema != nil && wf($p.schema.Objects) && $p.seen != nil"
+	case typeName == "*openapi.generator":
+		return "$p != nil && $p.schema != nil && wf($p.schema.Objects)"
+	case typeName == "*github.com/santhosh-tekuri/jsonschema/v5.Schema" || typeName == "*github.com/getkin/kin-openapi/openapi3.Schema":
+		return "$p != nil"
 	case typeName == "*compiler.Visitor":
 		return "$p != nil && wf($p.newObjects)"
 	case typeName == "*ast.BuilderVisitor":
